@@ -68,6 +68,10 @@ reg("C10", "./checks/es", "^TestC10", race=True, shards=(4, 16), assumptions=A_E
 reg("C12", "./checks/es", "^TestC12", race=True, shards=(4, 16), gomaxprocs=[16, 4, 2, 8], assumptions=A_ES + ["a data race reported by the race detector fails the test binary (exit status), which the driver reports"])
 reg("C11", "./checks/es", "^TestC11", race=True, shards=(4, 16), assumptions=["promptness is judged against deadline + 6 s (quick) / 15 s (thorough): a lost interrupt means never, so the bound is generous", "scripts spend their time in interpreted code, not in one long built-in call"])
 
+reg("C14", "./checks/sio", "^TestC14", shards=(4, 16), assumptions=["the routing model follows doc/by-example.md and sio/crew.go's comments: 'to' absent or '*' = every ordinary machine, an id or list of ids = those machines, service machines only when addressed", "the order in which the machines of one round are visited is not constrained (multisets are compared)"])
+
+reg("C15", "./checks/sio", "^TestC15", shards=(4, 16), assumptions=["counter machines react independently (their reactions to one message commute)", "the store folds changes exactly as sio's Stdio coupling does; crash points are message boundaries"])
+
 
 def log(*a):
     print(*a, flush=True)
